@@ -70,7 +70,7 @@ ENTRY = {"greedy": E_GREEDY, "greedy_satprof": E_GREEDY, "maxwelfare": E_MAXW, "
          "cohesive": E_RO, "validate_price": E_RO, "greedy_analytics": E_GREEDY, "mes_analytics": E_MES,
          "mes_skipped": E_MES, "mes_skipped_plain": E_MES, "phragmen_loads": E_PHRAG, "phragmen_loads_irr": E_PHRAG,
          "completion_phragmen": E_COMPL, "priceable_payments": E_RO, "category": E_RO,
-         "jr_cardinal": E_RO, "cohesive_cardinal": E_RO, "cardinal_stats": E_RO, "raisers": E_RO}
+         "jr_cardinal": E_RO, "cohesive_cardinal": E_RO, "cardinal_stats": E_RO, "raisers": E_RO, "reuse_probe": E_RO, "(setup)": E_SAT}
 # how the shared initial allocation is built: a plain list, a BudgetAllocation without details, the outcome of an
 # earlier analytics=True run (its details object is then caller-owned state), or a BudgetAllocation with fresh
 # details of either kind
@@ -198,6 +198,8 @@ def gen(rng, i, tier):
             "itars": sorted(rng.sample(["t0", "t1", "t2"], rng.randrange(0, 4)))}
     if i % 5 == 1:
         calls[rng.randrange(k)] = "category"
+    satname = rng.choice(APPROVAL_SATS)
+    csatname = rng.choice(CARDINAL_SATS)
     exo = rng.choice([0.0, 0.2, 0.5])
     if i % 5 == 2:
         # payment functions / loads with tiny non-zero, negative, huge and oddly typed entries
@@ -228,7 +230,8 @@ def gen(rng, i, tier):
             c += costs[p]
     return {"costs": [pb.qs(c) for c in costs], "budget": pb.qs(B), "ballots": ballots,
             "multi": rng.random() < 0.4, "init": sorted(init), "alloc": sorted(alloc),
-            "sat": rng.choice(["cost", "card"]), "calls": calls,
+            "sat": satname, "csat": csatname, "calls": calls,
+            "budget2": pb.qs(rng.choice([B * 2, B / 2, B + 1, max(costs) if max(costs) > 0 else B + 2])),
             "step": pb.qs(rng.choice([Fraction(1), Fraction(1, 2), B / 4])),
             "pkeys": pkeys, "plkeys": [sorted(keyset(PKEYS, 0.12) + (["voter_budget_increment"] if rng.random() < 0.15 else [])),
                        keyset(PKEYS, 0.12)], "ppkeys": ppkeys,
@@ -241,7 +244,8 @@ def gen(rng, i, tier):
             "pinc": rng.choice(["int:1", "mpq:1/2", "int:2"]),
             "cballots": cballots, "cmulti": rng.random() < 0.25,
             "explicit_init": rng.random() < 0.5, "explicit_res": rng.choice([None, None, True, False]),
-            "solver": any(c in SOLVER_CALLS for c in calls)}
+            "solver": (any(c in SOLVER_CALLS for c in calls) or satname in SOLVER_SATS
+                       or csatname in SOLVER_SATS)}
 
 
 # ------------------------------------------------------------------------------------------------
@@ -331,13 +335,34 @@ def enc(tree, it):
 
 
 # ------------------------------------------------------------------------------------------------
+# every shipped satisfaction measure valid for approval ballots / for cardinal ballots (Relative_Cost_Sat and
+# Additive_Cardinal_Relative_Sat normalise with the CBC solver: usual solver-fault discard)
+APPROVAL_SATS = ["cost", "cost", "card", "card", "relcard", "relcard", "relcost_approx", "effort", "relcost",
+                 "add_cost_sqrt", "add_cost_log", "cc", "cost_sqrt", "cost_log"]
+CARDINAL_SATS = ["addcard"] * 9 + ["addcard_rel"]
+SOLVER_SATS = {"relcost", "addcard_rel"}
+CARDINAL_CALLS = {"jr_cardinal", "cohesive_cardinal", "cardinal_stats", "raisers"}
+
+
 def _sat(name):
-    from pabutools.election import Cost_Sat, Cardinality_Sat
+    import pabutools.election as el
 
-    return {"cost": Cost_Sat, "card": Cardinality_Sat}[name]
+    return {"cost": el.Cost_Sat, "card": el.Cardinality_Sat, "relcard": el.Relative_Cardinality_Sat,
+            "relcost_approx": el.Relative_Cost_Approx_Normaliser_Sat, "effort": el.Effort_Sat,
+            "relcost": el.Relative_Cost_Sat, "add_cost_sqrt": el.Additive_Cost_Sqrt_Sat,
+            "add_cost_log": el.Additive_Cost_Log_Sat, "cc": el.CC_Sat, "cost_sqrt": el.Cost_Sqrt_Sat,
+            "cost_log": el.Cost_Log_Sat, "addcard": el.Additive_Cardinal_Sat,
+            "addcard_rel": el.Additive_Cardinal_Relative_Sat}[name]
 
 
-def build(case):
+BASE = ["inst", "prof", "alloc", "loads", "rule_seq", "rule_seq2", "pay", "cprof"]
+
+
+def build(case, hook=None, measures=True):
+    """Phase 1 builds the objects that exist before any library computation (instance, profiles, allocation, loads,
+    rule sequences, payment functions) and hands them to `hook`; phase 2 builds what NEEDS the library: the shared
+    satisfaction profile, initial allocations that are outcomes of earlier runs, and the dictionaries holding them.
+    measures=False leaves phase 2 without any satisfaction measure (objects never used under the case's budget)."""
     """fresh shared objects: [instance, profile, sat_profile, init, params, alloc, params_list, details]"""
     from pabutools.rules import BudgetAllocation, method_of_equal_shares
 
@@ -364,9 +389,27 @@ def build(case):
     else:
         prof = pb.make_approval_profile(inst, projs, case["ballots"], case["multi"])
     sat = _sat(case["sat"])
-    satprof = prof.as_sat_profile(sat)
+    from pabutools.rules import greedy_utilitarian_welfare as _g, sequential_phragmen as _p
+    ld = case.get("loads", [])
+    # one load per ballot object of the profile (len(prof): distinct ballots for a multiprofile)
+    loads = [val(ld[j]) if j < len(ld) else 0 for j in range(len(prof))]
+    rule_seq = [method_of_equal_shares, _g]
+    rule_seq2 = [method_of_equal_shares, _p]
+    cb = case.get("cballots") or [{} for _ in case["ballots"]]
+    cprof = pb.make_cardinal_profile(inst, projs, cb, bool(case.get("cmulti")))
+    pm = case.get("pay", [])
+    pay = [{p: (val(pm[v][j]) if v < len(pm) and j < len(pm[v]) else 0) for j, p in enumerate(projs)}
+           for v in range(len(prof))]
+    alloc = [projs[j] for j in case["alloc"]]
+    if hook is not None:
+        hook({"inst": inst, "prof": prof, "alloc": alloc, "loads": loads, "rule_seq": rule_seq,
+              "rule_seq2": rule_seq2, "pay": pay, "cprof": cprof})
+    # ---- phase 2 ----
+    satprof = prof.as_sat_profile(sat) if measures else None
     init = [projs[j] for j in case["init"]]
     ik = case.get("init_kind", "list")
+    if not measures and ik in ("greedy_run", "mes_run"):
+        ik = "list"
     if ik != "list":
         from pabutools.election import Instance
         from pabutools.rules import greedy_utilitarian_welfare
@@ -386,18 +429,6 @@ def build(case):
             init = BudgetAllocation(init, details=MESAllocationDetails([1 for _ in case["ballots"]]))
     from pabutools.tiebreaking import lexico_tie_breaking
 
-    # one load per ballot object of the profile (len(prof): distinct ballots for a multiprofile)
-    ld = case.get("loads", [])
-    loads = [val(ld[j]) if j < len(ld) else 0 for j in range(len(prof))]
-    from pabutools.rules import greedy_utilitarian_welfare as _g, sequential_phragmen as _p
-    rule_seq = [method_of_equal_shares, _g]
-    rule_seq2 = [method_of_equal_shares, _p]
-    cb = case.get("cballots") or [{} for _ in case["ballots"]]
-    cprof = pb.make_cardinal_profile(inst, projs, cb, bool(case.get("cmulti")))
-    pm = case.get("pay", [])
-    pay = [{p: (val(pm[v][j]) if v < len(pm) and j < len(pm[v]) else 0) for j, p in enumerate(projs)}
-           for v in range(len(prof))]
-
     def mk(keys):
         d = {"sat_class": sat}
         for k_ in keys:
@@ -409,7 +440,7 @@ def build(case):
                 d[k_] = lexico_tie_breaking
             elif k_ == "analytics":
                 d[k_] = bool(case.get("panalytics", False))
-            elif k_ == "sat_profile":
+            elif k_ == "sat_profile" and measures:
                 d.pop("sat_class", None)
                 d[k_] = satprof
             elif k_ == "voter_budget_increment":
@@ -419,14 +450,13 @@ def build(case):
         return d
 
     params = mk(case.get("pkeys", []))
-    alloc = [projs[j] for j in case["alloc"]]
     plk = case.get("plkeys", [[], []])
     params_list = [mk(plk[0]), mk(plk[1])]
     pparams = mk(case.get("ppkeys", []))
     pparams.pop("sat_class", None)
     return {"inst": inst, "projs": projs, "prof": prof, "satprof": satprof, "init": init, "params": params,
             "alloc": alloc, "params_list": params_list, "pparams": pparams, "loads": loads, "rule_seq": rule_seq,
-            "rule_seq2": rule_seq2, "pay": pay, "cprof": cprof, "sat": sat}
+            "rule_seq2": rule_seq2, "pay": pay, "cprof": cprof, "sat": sat, "csat": _sat(case.get("csat", "addcard"))}
 
 
 SHARED = ["inst", "prof", "satprof", "init", "params", "alloc", "params_list", "pparams", "loads", "rule_seq",
@@ -564,8 +594,38 @@ def do_call(name, o, case):
         return social_welfare_comparison(inst, prof, sat, o["rule_seq"], plist,
                                          initial_budget_allocation=xi)
     if name == "satprofile":
+        # every way of building measures: as_sat_profile, the profile classes' constructors, the class itself
+        from pabutools.election import SatisfactionProfile, SatisfactionMultiProfile
+
         sp = prof.as_sat_profile(sat)
-        return [sp.total_satisfaction(alloc), [s.sat(alloc) for s in sp], len(sp)]
+        if case["multi"]:
+            sp2 = SatisfactionMultiProfile(instance=inst, multiprofile=prof, sat_class=sat)
+        else:
+            sp2 = SatisfactionProfile(instance=inst, profile=prof, sat_class=sat)
+        return [sp.total_satisfaction(alloc), [s.sat(alloc) for s in sp], len(sp),
+                _try(lambda: sorted(pb.qs(s.sat(alloc)) for s in sp2)), _try(sp2.total_satisfaction, alloc),
+                _try(lambda: [sat(inst, prof, b).sat(alloc) for b in prof]),
+                _try(lambda: [sat(inst, prof, b).sat_project(p) for b in prof for p in o["projs"]])]
+    if name == "reuse_probe":
+        # the SAME profile / ballots / allocation objects under ANOTHER budget limit (a deep copy of the instance)
+        from copy import deepcopy
+        from pabutools.election import SatisfactionProfile, SatisfactionMultiProfile
+
+        inst2 = deepcopy(inst)
+        inst2.budget_limit = pb.num(case.get("budget2") or pb.qs(pb.F(case["budget"]) * 2))
+        cprof, csat = o["cprof"], o["csat"]
+
+        def sp2():
+            if case["multi"]:
+                return SatisfactionMultiProfile(instance=inst2, multiprofile=prof, sat_class=sat)
+            return SatisfactionProfile(instance=inst2, profile=prof, sat_class=sat)
+        return [_try(lambda: [s.sat(alloc) for s in sp2()]),
+                _try(lambda: [sat(inst2, prof, b).sat(alloc) for b in prof]),
+                _try(lambda: [sat(inst2, prof, b).sat_project(p) for b in prof for p in o["projs"]]),
+                _try(greedy_utilitarian_welfare, inst2, prof, sat_class=sat),
+                _try(method_of_equal_shares, inst2, prof, sat_class=sat),
+                _try(an.avg_satisfaction, inst2, prof, alloc, sat),
+                _try(lambda: [csat(inst2, cprof, b).sat(alloc) for b in cprof])]
     if name == "sat_calls":
         return [[s.sat(alloc) for s in satprof], [s.sat_project(p) for s in satprof for p in o["projs"]],
                 satprof.total_satisfaction(alloc)]
@@ -587,24 +647,26 @@ def do_call(name, o, case):
         from pabutools.election import Additive_Cardinal_Sat, Cost_Sat, Cardinality_Sat
         from pabutools.analysis.profileproperties import votes_count_by_project as vcp
 
-        cprof = o["cprof"]
+        cprof, csat = o["cprof"], o["csat"]
         if name == "jr_cardinal":
             return [_try(f, inst, cprof, alloc) for f in (
                 jr.is_strong_EJR_cardinal, jr.is_EJR_cardinal, jr.is_EJR_any_cardinal, jr.is_EJR_one_cardinal,
                 jr.is_PJR_cardinal, jr.is_PJR_any_cardinal, jr.is_PJR_one_cardinal)] + [
-                _try(jr.is_in_core, inst, cprof, Additive_Cardinal_Sat, alloc)]
+                _try(jr.is_in_core, inst, cprof, csat, alloc)]
         if name == "cohesive_cardinal":
             return [_try(lambda: len(list(coh.cohesive_groups(inst, cprof)))),
                     _try(lambda: len(list(coh.cohesive_groups(inst, cprof, alloc))))]
         if name == "cardinal_stats":
             return [_try(an.avg_total_score, inst, cprof), _try(an.median_total_score, inst, cprof),
                     _try(an.avg_ballot_length, inst, cprof), _try(an.avg_ballot_cost, inst, cprof), _try(vcp, cprof),
-                    _try(an.avg_satisfaction, inst, cprof, alloc, Additive_Cardinal_Sat),
-                    _try(an.gini_coefficient_of_satisfaction, inst, cprof, alloc, Additive_Cardinal_Sat),
+                    _try(an.avg_satisfaction, inst, cprof, alloc, csat),
+                    _try(an.gini_coefficient_of_satisfaction, inst, cprof, alloc, csat),
+                    _try(lambda: [csat(inst, cprof, b_).sat(alloc) for b_ in cprof]),
+                    _try(jr.is_EJR_cardinal, inst, cprof, alloc, csat),
                     _try(an.percent_non_empty_handed, inst, cprof, alloc),
-                    _try(greedy_utilitarian_welfare, inst, cprof, sat_class=Additive_Cardinal_Sat,
+                    _try(greedy_utilitarian_welfare, inst, cprof, sat_class=csat,
                          initial_budget_allocation=init),
-                    _try(method_of_equal_shares, inst, cprof, sat_class=Additive_Cardinal_Sat,
+                    _try(method_of_equal_shares, inst, cprof, sat_class=csat,
                          initial_budget_allocation=init)]
         # inputs on which the call is expected to raise: wrong ballot type for a measure / a rule, infeasible initial
         # allocation, rule_params of the wrong length, colliding resoluteness
@@ -671,9 +733,14 @@ def impl(case):
         pb.install_solver_guard()
         pb.solver_reset()
     it = Interner()
-    o = build(case)
-    pre = [enc(snapshot(o[k]), it) for k in SHARED]
-    posts, shared_ans, fresh_ans = [], [], []
+    base = {}
+    o = build(case, hook=lambda b: base.update({k: snapshot(b[k]) for k in BASE}))
+    # implicit first call "(setup)": building the shared satisfaction profile and the initial allocations that are
+    # outcomes of earlier runs must not have touched the objects that existed before (snapshotted by the hook)
+    after_setup = [snapshot(o[k]) for k in SHARED]
+    pre = [enc(base[k] if k in BASE else t, it) for k, t in zip(SHARED, after_setup)]
+    posts = [[enc(t, it) for t in after_setup]]
+    shared_ans, fresh_ans = [enc(("s", "setup"), it)], [enc(("s", "setup"), it)]
     raised = []
 
     def attempt(name, objs):
@@ -685,12 +752,15 @@ def impl(case):
             raised.append(name + ": " + type(e).__name__ + ": " + str(e)[:120])
             return ("s", "raised " + type(e).__name__)
 
-    for name in case["calls"]:
+    calls_eff = list(case["calls"]) + ["reuse_probe"]
+    for name in calls_eff:
         shared_ans.append(enc(attempt(name, o), it))
         posts.append([enc(snapshot(o[k]), it) for k in SHARED])
-    for name in case["calls"]:
-        fresh_ans.append(enc(attempt(name, build(case)), it))
-    out = {"pre": pre, "posts": posts, "shared": shared_ans, "fresh": fresh_ans, "raised": raised,
+    for name in calls_eff:
+        # the probe's fresh objects have never been used under the case's own budget limit
+        fresh_ans.append(enc(attempt(name, build(case, measures=(name != "reuse_probe"))), it))
+    calls_eff = ["(setup)"] + calls_eff
+    out = {"calls_eff": calls_eff, "pre": pre, "posts": posts, "shared": shared_ans, "fresh": fresh_ans, "raised": raised,
            "changed": [[k for k, a, b in zip(SHARED, pre, p) if a != b] for p in posts]}
     if case.get("solver"):
         st = pb.solver_state()
@@ -710,7 +780,7 @@ def coq_case(case, o):
     """Every distinct tree of the case is written once and let-bound; a post-snapshot (fresh answer) that is
     structurally equal to the pre-snapshot (shared answer) would be serialised to the very same text anyway, so Coq
     still evaluates tree_eqb on the same two terms -- only the case file is a third of the size."""
-    entries = lst([str(ENTRY[c]) for c in case["calls"]])
+    entries = lst([str(ENTRY[c]) for c in o.get("calls_eff", case["calls"])])
     names, binds = {}, []
 
     def ref(t):
@@ -753,6 +823,8 @@ def stats(cases, obs):
         d["init_nonempty"] += bool(c["init"])
         d["cases_with_solver"] += bool(c.get("solver"))
         d["calls_that_raised"] += len(o.get("raised", []))
+        d.setdefault("sat_class", {})
+        d["sat_class"][c.get("sat", "?")] = d["sat_class"].get(c.get("sat", "?"), 0) + 1
         tot += sum(size(t) for t in o["pre"])
         cnt += 1
     d["snapshot_nodes_mean"] = round(tot / max(cnt, 1), 1)
